@@ -1,0 +1,27 @@
+//go:build verif
+
+package plush
+
+import "github.com/gobuffalo/plush/v5/ast"
+
+// Hooks for the verification harness in /verif (build tag "verif" only).
+
+// VerifProgram returns the parsed program of a template so that the harness can
+// snapshot the tree around Exec. Read-only use.
+func (t *Template) VerifProgram() *ast.Program {
+	return t.program
+}
+
+// VerifCacheLen reports the number of cached templates.
+func VerifCacheLen() int {
+	moot.Lock()
+	defer moot.Unlock()
+	return len(cache)
+}
+
+// VerifCacheReset empties the template cache (cold-cache histories).
+func VerifCacheReset() {
+	moot.Lock()
+	defer moot.Unlock()
+	cache = map[string]*Template{}
+}
